@@ -66,7 +66,18 @@ def validate_is_bytes(value):
         raise TypeError(value)
 '''
 
+VALMSG_CTL = '''
+from eth_utils import ValidationError      # a foreign class under the package's name
+
+
+def validate_is_bytes(value):
+    if not isinstance(value, bytes):
+        raise ValidationError("not bytes: %r" % value)   # TypeError for a tuple argument
+'''
+
 CONTROLS = {
+    "VALMSG": (None, {"trie/validation.py": VALMSG_CTL}, "refusal-message:validate_is_bytes"),
+    "EXCORIGIN": (None, {"trie/validation.py": VALMSG_CTL}, "exception-origin:trie.validation:ValidationError"),
     "IDENT": (None, {"trie/validation.py": IDENT_CTL}, "identity-test:validate_is_bytes"),
     # rule id -> (property to run it as, sources, substring of a construct that must be a violation)
     "EFF2": ("C04", {"trie/hexary.py": HEXARY_CTL}, "entry:HexaryTrie.forget"),
